@@ -274,6 +274,7 @@ type Obligation struct {
 	Values   []string
 	Result   *SolverResult
 	Finding  string
+	Blk      *ssa.BasicBlock
 }
 
 type Enc struct {
@@ -307,6 +308,10 @@ type Enc struct {
 	sortTotal   []sortObl
 	initDone    bool
 	allocLog    []Term
+	elemsSeen   map[string]bool
+	assertBlk   []*ssa.BasicBlock
+	curBlk      *ssa.BasicBlock
+	relMemo     map[*ssa.BasicBlock]map[*ssa.BasicBlock]bool
 }
 
 func newEnc(eng *Engine, top *ssa.Function) *Enc {
@@ -348,15 +353,58 @@ func (c *Enc) assert(t Term) {
 		return
 	}
 	c.asserts = append(c.asserts, t)
+	c.assertBlk = append(c.assertBlk, c.curBlk)
+}
+
+// relevantBlocks: blocks of the top-level function from which control can reach blk along
+// forward edges (blk itself included). blk == nil means "function exit".
+func (c *Enc) relevantBlocks(blk *ssa.BasicBlock) map[*ssa.BasicBlock]bool {
+	if c.relMemo == nil {
+		c.relMemo = map[*ssa.BasicBlock]map[*ssa.BasicBlock]bool{}
+	}
+	if m, ok := c.relMemo[blk]; ok {
+		return m
+	}
+	m := map[*ssa.BasicBlock]bool{}
+	var stack []*ssa.BasicBlock
+	if blk == nil {
+		for _, b := range c.top.Blocks {
+			if len(b.Instrs) > 0 {
+				if _, ok := b.Instrs[len(b.Instrs)-1].(*ssa.Return); ok {
+					stack = append(stack, b)
+				}
+			}
+		}
+	} else {
+		stack = append(stack, blk)
+	}
+	for len(stack) > 0 {
+		b := stack[len(stack)-1]
+		stack = stack[:len(stack)-1]
+		if m[b] {
+			continue
+		}
+		m[b] = true
+		for _, p := range b.Preds {
+			if !isBackEdge(p, b) {
+				stack = append(stack, p)
+			}
+		}
+	}
+	c.relMemo[blk] = m
+	return m
 }
 
 func (c *Enc) assume(guard, t Term) { c.assert(Implies(guard, t)) }
 
 func (c *Enc) oblige(name, kind string, guard, goal Term, text string) *Obligation {
-	o := &Obligation{Name: name, Kind: kind, Guard: guard, Goal: goal, NAsserts: len(c.asserts), NDecls: len(c.decls), Func: funcKey(c.top), Text: text}
+	o := &Obligation{Name: name, Kind: kind, Guard: guard, Goal: goal, NAsserts: len(c.asserts), NDecls: len(c.decls), Func: funcKey(c.top), Text: text, Blk: c.curBlk}
 	c.obls = append(c.obls, o)
-	// later code may assume it (assert-then-assume)
-	c.assert(Implies(guard, goal))
+	// later code may assume what control flow has passed (assert-then-assume); clauses that sit at the
+	// same program point (ensures, invariants) are checked independently of each other
+	if kind == "safe" || kind == "requires" {
+		c.assert(Implies(guard, goal))
+	}
 	return o
 }
 
@@ -547,6 +595,44 @@ func (c *Enc) card(set Term) Term {
 	return t
 }
 
+// option reports whether the top-level function's contract enables an optional axiom group.
+func (c *Enc) option(name string) bool {
+	fc := c.eng.cf.Funcs[funcKey(c.top)]
+	return fc != nil && fc.Options[name]
+}
+
+// elemsOf(inner, off, len) is the set of elements of a slice window; it is an uninterpreted
+// function whose meaning is given by axioms emitted once per distinct application.
+func (c *Enc) elemsOf(inner, off, ln Term, es Sort) Term {
+	fn := "elemsOf_" + sanitize(string(es))
+	setSort := ArraySort(es, SBool)
+	c.declareFun(fn, []Sort{ArraySort(SInt, es), SInt, SInt}, setSort)
+	t := Term{app(fn, inner, off, ln), setSort}
+	if c.elemsSeen == nil {
+		c.elemsSeen = map[string]bool{}
+	}
+	if c.elemsSeen[t.S] || strings.Contains(t.S, "!q") {
+		return t
+	}
+	c.elemsSeen[t.S] = true
+	empty := fmt.Sprintf("((as const %s) false)", setSort)
+	c.assert(Term{fmt.Sprintf("(=> (<= %s 0) (= %s %s))", ln.S, t.S, empty), SBool})
+	if !c.option("elems-index") {
+		return t
+	}
+	c.n++
+	pv := fmt.Sprintf("ei!%d", c.n)
+	hi := Add(off, ln)
+	c.assert(Term{fmt.Sprintf("(forall ((%s Int)) (! (=> (and (<= %s %s) (< %s %s)) (select %s (select %s %s))) :pattern ((select %s %s))))",
+		pv, off.S, pv, pv, hi.S, t.S, inner.S, pv, inner.S, pv), SBool})
+	idx := fmt.Sprintf("idxOf!%d", c.n)
+	c.declareFun(idx, []Sort{es}, SInt)
+	xv := fmt.Sprintf("ex!%d", c.n)
+	c.assert(Term{fmt.Sprintf("(forall ((%s %s)) (! (=> (select %s %s) (and (<= %s (%s %s)) (< (%s %s) %s) (= (select %s (%s %s)) %s))) :pattern ((select %s %s))))",
+		xv, es, t.S, xv, off.S, idx, xv, idx, xv, hi.S, inner.S, idx, xv, xv, t.S, xv), SBool})
+	return t
+}
+
 // ---------------------------------------------------------------------------
 // constants
 
@@ -653,7 +739,11 @@ func (c *Enc) queryFor(o *Obligation) string {
 		b.WriteString("\n")
 	}
 	b.WriteString(c.literalAxioms())
-	for _, a := range c.asserts[:o.NAsserts] {
+	rel := c.relevantBlocks(o.Blk)
+	for i, a := range c.asserts[:o.NAsserts] {
+		if blk := c.assertBlk[i]; blk != nil && !rel[blk] {
+			continue
+		}
 		b.WriteString("(assert ")
 		b.WriteString(a.S)
 		b.WriteString(")\n")
